@@ -77,6 +77,14 @@ func bodyEvents(b *hclsyntax.Body, src []byte, comments []c20Comment, lo, hi int
 		evs = append(evs, ev{r.Start.Byte, "B" + bl.Type + "[" + strings.Join(ls, ",") + "]{" + inner + "}"})
 		childSpans = append(childSpans, span{bl.OpenBraceRange.End.Byte, bl.CloseBraceRange.Start.Byte})
 	}
+	// a comment between the tokens of an attribute (name … value) or of a block header (type … "{") belongs to that
+	// item: it goes when the item goes and is not an item of its own
+	for _, a := range b.Attributes {
+		childSpans = append(childSpans, span{a.SrcRange.Start.Byte, a.SrcRange.End.Byte})
+	}
+	for _, bl := range b.Blocks {
+		childSpans = append(childSpans, span{bl.Range().Start.Byte, bl.OpenBraceRange.Start.Byte})
+	}
 	for _, c := range comments {
 		p := c.tok.Range.Start.Byte
 		if p < lo || p >= hi {
@@ -173,6 +181,20 @@ type c20Gen struct {
 
 func (g *c20Gen) value() string {
 	r := g.r
+	if r.Chance(1, 3) { // any expression of the grammar (single line), every kind of index key and traversal
+		for k := 0; k < 4; k++ {
+			v := exprSrc(r, 1+r.Intn(3))
+			if strings.Contains(v, "\n") {
+				continue
+			}
+			// the grammar also emits some malformed text on purpose (for the parsers' robustness); a file for the writer must be valid
+			if _, d := hclsyntax.ParseExpression([]byte(v), "v.hcl", hcl.InitialPos); !d.HasErrors() {
+				if _, d2 := hclsyntax.ParseConfig([]byte("a = "+v+"\n"), "v.hcl", hcl.InitialPos); !d2.HasErrors() {
+					return v
+				}
+			}
+		}
+	}
 	switch r.Intn(12) {
 	case 0:
 		return fmt.Sprint(r.Intn(1000))
@@ -241,7 +263,12 @@ func (g *c20Gen) items(depth int) []*c20Item {
 
 func (g *c20Gen) write(items []*c20Item, ind string, sb *strings.Builder) {
 	r := g.r
-	ws := func() string { return gen.Pick(r, []string{" ", " ", "  ", "\t", " \t "}) }
+	ws := func() string {
+		if r.Chance(1, 10) { // an inline comment is allowed between any two tokens of a header or an attribute
+			return gen.Pick(r, []string{" /* c */ ", "/**/", " /* two words */ "})
+		}
+		return gen.Pick(r, []string{" ", " ", "  ", "\t", " \t "})
+	}
 	for _, it := range items {
 		if it.blank {
 			sb.WriteString("\n")
@@ -252,7 +279,7 @@ func (g *c20Gen) write(items []*c20Item, ind string, sb *strings.Builder) {
 		if it.attr {
 			sb.WriteString(ind + it.name + ws() + "=" + ws() + it.valSrc)
 			if it.trailing != "" {
-				sb.WriteString(ws() + it.trailing)
+				sb.WriteString(gen.Pick(r, []string{" ", "  ", "\t"}) + it.trailing)
 			}
 			sb.WriteString("\n")
 		} else {
